@@ -95,7 +95,49 @@ class C16(HistoryProperty):
     REQUIRED_CACHE = "recording"
     NONTRIVIAL_MEASURE = "history_many_vectors"
 
+    def _run_iface_nocache(self, case, res):
+        """'nocache' holds for interface members too: a member declared with .nocache and implemented by a plain function
+        recomputes on every evaluation (no hidden cache around the implementation)."""
+        from labrea import Option, abstractdataset, dataset, interface
+
+        from .. import rt
+
+        with global_state_guard():
+            w = World({"nodes": [], "roots": []})
+            with w.active():
+                def m0(a=Option("A", 0)):
+                    rt.call("body", "member_default", a=a)
+                    return ("default", a)
+
+                member = (abstractdataset if case["abstract"] else dataset).nocache(m0)
+                iface = interface("M")(type("NI", (), {"m0": staticmethod(member)}))
+
+                def impl_fn(a=Option("A", 0)):
+                    rt.call("body", "member_impl", a=a)
+                    return ("impl", a)
+
+                iface.implementation("x")(type("IMPL", (), {"m0": impl_fn}))
+                for k, o in enumerate(case["dicts"]):
+                    before = w.count("body")
+                    try:
+                        iface.m0(dict(o))
+                    except Exception:  # noqa: BLE001 (an abstract member without implementation for this dispatch value)
+                        continue
+                    ran = w.count("body") - before
+                    res.bump("ops")
+                    if ran != 1:
+                        res.violate("nocache-dataset-served-without-recomputation", op_index=k, o=o, bodies_run=ran, member="abstract" if case["abstract"] else "with default")
+                        break
+            res.digest = w.log.digest()
+            res.stats["events"] = w.log.seq
+            res.seen("history", case)
+        return res
+
     def gen_case(self, rng, tier):
+        if rng.random() < 0.03:
+            vals = [rng.choice([0, 1, "a"]) for _ in range(2)]
+            dicts = [{"M": rng.choice(["x", "x", "y"]), "A": rng.choice(vals)} for _ in range(rng.randint(3, 6))]
+            return {"kind": "iface_nocache", "abstract": rng.random() < 0.5, "dicts": dicts, "ops": [], "spec": {"nodes": [], "roots": []}, "cfg": {}}
         variant = rng.random() < 0.15
         # (the nocache variant of a program equals "caching disabled" only if nothing else in it caches)
         cfg = gen.swarm_cfg(rng, off=("shape_change", "alloptions", "nocache") + (("cached",) if variant else ()), on=("effects", "dataset"))
@@ -153,6 +195,8 @@ class C16(HistoryProperty):
 
     def run_case(self, case):
         res = Result()
+        if case.get("kind") == "iface_nocache":
+            return self._run_iface_nocache(case, res)
         spec = case["spec"]
         by_id = {n["id"]: n for n in spec["nodes"]}
         wspec = spec
